@@ -60,6 +60,16 @@ func (c *Ctx) ModGraph() *ModGraph {
 						for _, f := range c.P.Callees(x) {
 							add(fn, f, ins)
 						}
+						if c.UseCHA {
+							// thorough tier: also every class-hierarchy callee that is not in a mock/testing package
+							if n := c.P.CHA().Nodes[fn]; n != nil {
+								for _, e := range n.Out {
+									if e.Site == x && e.Callee.Func != nil && !prog.IsTestish(prog.PkgPathOf(e.Callee.Func)) {
+										add(fn, e.Callee.Func, ins)
+									}
+								}
+							}
+						}
 						continue
 					}
 					// dynamic call of a function value
